@@ -325,7 +325,7 @@ pub fn kmer_exhaustive<K: Kmer + Send + Sync>(sink: &Sink, r: &mut Rng, limit: u
     let k = K::k();
     let ty = std::any::type_name::<K>().replace("debruijn::kmer::", "");
     let mut values: Vec<Vec<u8>> = Vec::new();
-    let total: u128 = 1u128 << (2 * k);
+    let total: u128 = if 2 * k >= 127 { u128::MAX } else { 1u128 << (2 * k) };
     let full_ops = thorough && k <= 6;
     if total <= limit as u128 {
         for v in 0..(total as u64) {
@@ -1297,6 +1297,20 @@ pub fn ascii_event(sink: &Sink, input: &[u8], name: &[u8], name2: &[u8]) {
         }
         let h3 = DnaString::from_acgt_bytes_hashn(&other, name);
         let h4 = DnaString::from_acgt_bytes_hashn(input, name2);
+        // the substitution at a position must not depend on the OTHER non-ACGT positions of the read: keep one N, repair the rest
+        let npos: Vec<usize> = input.iter().enumerate().filter(|(_, c)| !debruijn::is_valid_base(**c)).map(|(i, _)| i).collect();
+        let mut single: Vec<Value> = Vec::new();
+        for (j, p) in npos.iter().enumerate() {
+            if j < 3 || j + 2 >= npos.len() || j % 7 == 0 {
+                let mut one: Vec<u8> = input.to_vec();
+                for q in &npos {
+                    if q != p {
+                        one[*q] = b'A';
+                    }
+                }
+                single.push(json!([p, DnaString::from_acgt_bytes_hashn(&one, name).get(*p)]));
+            }
+        }
         let is_ascii = input.iter().all(|c| *c < 128);
         let (st, strict, kfa) = if is_ascii {
             let t = std::str::from_utf8(input).unwrap();
@@ -1307,7 +1321,7 @@ pub fn ascii_event(sink: &Sink, input: &[u8], name: &[u8], name2: &[u8]) {
             (json!([]), json!([]), json!(false))
         };
         json!({"acgt": a.to_bytes(), "acgt_len": a.len(), "render": a.to_ascii_vec(), "text": a.to_string(),
-               "hashn": h1.to_bytes(), "hashn_again": h2.to_bytes(), "hashn_other": h3.to_bytes(), "hashn_name2": h4.to_bytes(),
+               "hashn": h1.to_bytes(), "hashn_again": h2.to_bytes(), "hashn_other": h3.to_bytes(), "hashn_name2": h4.to_bytes(), "hashn_single": single,
                "str": st, "strict": strict, "is_ascii": kfa,
                "b2b": input.iter().map(|c| debruijn::base_to_bits(*c)).collect::<Vec<u8>>(),
                "valid": input.iter().map(|c| debruijn::is_valid_base(*c)).collect::<Vec<bool>>(),
